@@ -21,7 +21,9 @@ def configs(reads, psu, maxphot, th):
     tmpl = cc.consts_of(Scenario="tmpl", NObj=3, Targets={1, 2, 3}, PNu=3, Numeric=True, MaxLen=6, MaxAnc=3, AddPairs={(1, 2), (1, 3), (2, 3)},
                         TmplLoss=True, MaxHer=(1, 2, 1), MaxAdds=2, Kinds={"herald", "add", "probeall"} | reads, Ordered=False,
                         HeraldNs={0, 1}, MaxPhot=maxphot, PSU=psu, DispMin=2, MaxRej=0)
-    return {"single": single, "single_deep": single4, "tmpl": tmpl}
+    bunch = cc.consts_of(NUs={2}, Numeric=True, MaxLen=3, MaxRej=0, Kinds={"bs", "herald"} | reads, Rids={1}, Convs={"Rx", "H"}, Lqs={0, 1},
+                         HeraldNs={2}, MaxHer=(1,), MaxPhot=4, PSU=psu, DispMin=1)
+    return {"single": single, "single_deep": single4, "tmpl": tmpl, "bunch": bunch}
 
 
 def ends_in_read(r):
@@ -36,6 +38,9 @@ def run_reads(pid, tier, reads, mine, invariants, rule, psu=PSU_NONE, maxphot=2,
     keep = (lambda t: any(('"%s"' % k) in t for k in reads))
     cc.dump_phase(chk, pid, "single", cs["single"], ["UnitaryInv"] + invariants, ["FrameProp", "RejectFrame"], mine, 1.0 if th else frac, 2400,
                   {"scenario": "single", "numeric": True}, keep=keep, nontrivial_fn=ends_in_read)
+    if reads & {"simulate", "sdist"}:       # up to 4 photons in one mode (factorials beyond 3!) on the smallest circuits
+        cc.dump_phase(chk, pid, "bunch", cs["bunch"], ["UnitaryInv"] + invariants, ["FrameProp"], mine, 1.0, 2400, {"scenario": "single", "numeric": True},
+                      keep=keep, nontrivial_fn=ends_in_read)
     cc.sim_phase(chk, pid, "single_deep", cs["single_deep"], mine, nsim * (6 if th else 1), 6, {"scenario": "single", "numeric": True},
                  nontrivial_fn=ends_in_read)
     cc.sim_phase(chk, pid, "tmpl", cs["tmpl"], mine, nsim * (6 if th else 1), 7, {"scenario": "tmpl", "numeric": True, "pnu": 3, "tmpl_loss": True},
